@@ -352,4 +352,73 @@ theorem extract_long_vneg (mask : MaskFn) (env : Env) (isServer : Bool) (guessed
     ifs
     simp [ofPkt, Pkt.tokenLen, Pkt.packetLen, Nat.add_comm]
 
+theorem pySlice_to_neg (x : Bytes) (k : Nat) (hk : 0 < k) : pySlice x none (some (-(k : Int))) = x.take (x.length - k) := by
+  have h : (-(k : Int)) < 0 := by omega
+  simp only [pySlice, Option.map_none, Option.getD_none, Option.map_some, Option.getD_some, bound, Bytes.slice, List.drop_zero, Nat.sub_zero,
+    h, if_true]
+  congr 1; omega
+
+theorem pySlice_from_neg (x : Bytes) (k : Nat) (hk : 0 < k) : pySlice x (some (-(k : Int))) none = x.drop (x.length - k) := by
+  have h : (-(k : Int)) < 0 := by omega
+  simp only [pySlice, Option.map_none, Option.getD_none, Option.map_some, Option.getD_some, bound, Bytes.slice, h, if_true]
+  have e : (-(k : Int) + (x.length : Int)).toNat = x.length - k := by omega
+  rw [e, List.take_of_length_le]
+  simp only [List.length_drop]; omega
+
+/-- the shared start of the long-header arms: goal after unfolding, for a version that is not zero and a known packet type -/
+macro "long_start" hz:ident hs:ident hver:ident hpt:ident : tactic =>
+  `(tactic| (
+    unfold Gen.Py.extract_quic_packet extract
+    simp only [get_header_type_eq_model, get_packet_type_eq_model, onFirst, $hs:ident, $hz:ident, tryE_ok, Bool.false_eq_true, if_false,
+      decide_false, reduceCtorEq, decide_true, if_true]
+    unpack_norm
+    simp only [$hver:ident, $hpt:ident, decide_false, decide_true, Bool.false_eq_true, if_false, if_true, Option.some.injEq, reduceCtorEq,
+      Bool.or_self, Bool.or_false, Bool.or_true, Bool.false_or, Bool.true_or, beNat_one, UInt8.ofNat_toNat]))
+
+theorem extract_long_retry (mask : MaskFn) (env : Env) (isServer : Bool) (guessed : Bytes) (ts : Nat) (fb a b c e dl : UInt8) (r : Bytes)
+    (keys : Dict (List Nat) Bytes) (cs : Option Bytes)
+    (hz : Bytes.beNat (fb :: a :: b :: c :: e :: dl :: r) ≠ 0) (hs : isLong fb = true)
+    (hver : ¬ [a, b, c, e] = [0, 0, 0, 0]) (hpt : packetType fb = .retry) :
+    Gen.Py.extract_quic_packet (maskE mask) isServer guessed keys cs (fb :: a :: b :: c :: e :: dl :: r) ts =
+      .ok ((extract mask env isServer guessed ts (fb :: a :: b :: c :: e :: dl :: r)).pkts.map ofPkt)
+        { tls_data := (extract mask env isServer guessed ts (fb :: a :: b :: c :: e :: dl :: r)).rest } := by
+  long_start hz hs hver hpt
+  simp only [extractLong, need, bind, Except.bind, Dissect.ofOpt, slice_add, hpt]
+  unpack_norm
+  have S0 : Bytes.slice (fb :: a :: b :: c :: e :: dl :: r) 1 5 = [a, b, c, e] := by simp [Bytes.slice]
+  have S1 : Bytes.slice (fb :: a :: b :: c :: e :: dl :: r) (6 + dl.toNat) (7 + dl.toNat) = List.take 1 (List.drop dl.toNat r) := by
+    rw [seven, slice6]; congr 1; omega
+  simp only [S0, S1, hver, Nat.add_assoc, Nat.reduceAdd, Nat.add_zero, drop6, drop7, List.drop_drop, List.drop_zero, if_true, if_false, decide_true]
+  have hdl : dl.toNat < 256 := by simpa using dl.toNat_lt
+  by_cases hA : List.length r < dl.toNat
+  · ifs; simp
+  by_cases hB : List.length r < dl.toNat + 1
+  · ifs; simp
+  ifs
+  cases hv : decodeVarint (List.take 1 (List.drop dl.toNat r)) with
+  | none => simp
+  | some v =>
+    have hv64 := decodeVarint_take1 _ _ hv
+    have hbv : (UInt8.ofNat v).toNat = v := by
+      simp only [UInt8.toNat_ofNat']; omega
+    by_cases hC : List.length r < dl.toNat + 1 + v
+    · ifs; simp
+    simp (disch := omega) only [if_pos, if_neg, List.length_take, List.length_drop, Nat.min_eq_left, hbv]
+    have hf : fOk (Fld.S (((List.length r + 6 : Nat) : Int) - ((6 + (dl.toNat + (1 + v)) : Nat) : Int))) = true := by
+      simp only [fOk, decide_eq_true_eq]; omega
+    have hn : fNat (Fld.S (((List.length r + 6 : Nat) : Int) - ((6 + (dl.toNat + (1 + v)) : Nat) : Int))) =
+        List.length r - (dl.toNat + (1 + v)) := by
+      simp only [fNat]; omega
+    have ht : (((List.length r + 6 : Nat) : Int) - ((6 + (dl.toNat + (1 + v)) : Nat) : Int)).toNat = List.length r - (dl.toNat + (1 + v)) := by omega
+    have hm : List.length r + 6 - (6 + (dl.toNat + (1 + v))) = List.length r - (dl.toNat + (1 + v)) := by omega
+    have e16 : (-16 : Int) = -((16 : Nat) : Int) := rfl
+    simp only [hf, hn, ht, hm, if_true, getItem_cons_zero, tryE_ok, e16, pySlice_to_neg _ 16 (by omega), pySlice_from_neg _ 16 (by omega)]
+    ifs
+    have hx : List.take (List.length r - (dl.toNat + (1 + v))) (List.drop (dl.toNat + (1 + v)) r) = List.drop (dl.toNat + (1 + v)) r := by
+      apply List.take_of_length_le; simp only [List.length_drop]; omega
+    have hx' : List.drop (1 + (dl.toNat + v)) r = List.drop (dl.toNat + (1 + v)) r := by congr 1; omega
+    have hx'' : List.drop (dl.toNat + 1) r = List.drop (1 + dl.toNat) r := by congr 1; omega
+    simp only [hx, hx', hx'', drop6, List.map_cons, List.map_nil, ofPkt, Pkt.tokenLen, Pkt.packetLen, List.length_take, List.length_drop]
+    simp
+
 end TLX.Props.Translated
